@@ -170,6 +170,25 @@ Theorem attr_gated_by_spec : forall v n, ver_ltb v (spec_attr_min n) = true -> a
 Proof. exact attr_gated_spec. Qed.
 Print Assumptions attr_gated_by_spec.
 
+(* attribute names used as Locate filters.  Full statement (what the property demands): *)
+Definition attr_gated_locate_statement : Prop :=
+  forall v names n, In v supported_versions -> In n names -> ver_ltb v (spec_attr_min n) = true ->
+    locate_filter_gate v names <> None.
+(* false on the code as it is: _process_locate never consults is_attribute_supported (known finding
+   C16-locate-attr-not-gated; witness: KMIP 1.0, filter "Sensitive") *)
+Theorem attr_gated_locate_refuted : exists v n, In v supported_versions /\ ver_ltb v (spec_attr_min n) = true
+  /\ locate_filter_gate v [n] = None.
+Proof. exact locate_filter_not_gated. Qed.
+Print Assumptions attr_gated_locate_refuted.
+(* it holds for a handler that does consult it (the extra hypothesis excludes exactly today's _process_locate) *)
+Theorem attr_gated_locate_partial : forall v names n, site_checks_supported "_process_locate" = true ->
+  In n names -> ver_ltb v (spec_attr_min n) = true -> locate_filter_gate v names <> None.
+Proof. exact locate_filter_gated_if_checked. Qed.
+Print Assumptions attr_gated_locate_partial.
+Example attr_gated_locate_partial_hyp : site_checks_supported "_process_create" = true /\ In "Sensitive" ["Name"; "Sensitive"]
+  /\ ver_ltb (1, 3) (spec_attr_min "Sensitive") = true.
+Proof. repeat split; vm_compute; tauto. Qed.
+
 (* ---------------------------------------------------------------- message fields *)
 (* for every (class, tag, v0) of the specification table and every KMIPVersion v: the read method of the class reaches
    the tag exactly when v >= v0 *)
